@@ -199,9 +199,15 @@ def xlcm(*args):
 
 FUNCTIONS['LCM'] = wrap_func(xlcm)
 FUNCTIONS['LOG10'] = wrap_ufunc(np.log10)
-FUNCTIONS['LOG'] = wrap_ufunc(
-    lambda x, base=10: np.log(x) / np.log(base) if base else np.nan
-)
+def xlog(x, base=10):
+    if x <= 0 or base <= 0:
+        return np.nan
+    if base == 1:
+        return Error.errors['#DIV/0!']
+    return np.log(x) / np.log(base)
+
+
+FUNCTIONS['LOG'] = wrap_ufunc(xlog)
 FUNCTIONS['LN'] = wrap_ufunc(np.log)
 
 
